@@ -645,19 +645,35 @@ func runInBubble(t *testing.T, f func(), run *Run) (leaked bool) {
 				run.Fail("panic", "", "panic escaped bubble: %v\n%s", r, stacks)
 			}
 		}()
-		synctest.Test(t, func(st *testing.T) {
-			t0 := time.Now()
-			func() {
-				defer func() {
-					if r := recover(); r != nil {
-						run.Fail("panic", "", "panic in run: %v\n%s", r, debug.Stack())
-					}
+		// synctest.Test ends the calling goroutine (t.FailNow) when the
+		// bubble's test failed - which a race-detector report inside the
+		// bubble makes it do. The harness turns such a report into a
+		// violation itself and must live to write its result: the call is
+		// made on a goroutine of its own, whose panic (the end-of-bubble
+		// deadlock) is handed back to this one.
+		done := make(chan struct{})
+		var pv interface{}
+		go func() {
+			defer close(done)
+			defer func() { pv = recover() }()
+			synctest.Test(t, func(st *testing.T) {
+				t0 := time.Now()
+				func() {
+					defer func() {
+						if r := recover(); r != nil {
+							run.Fail("panic", "", "panic in run: %v\n%s", r, debug.Stack())
+						}
+					}()
+					f()
 				}()
-				f()
-			}()
-			run.SimTime = time.Since(t0)
-			finished = true
-		})
+				run.SimTime = time.Since(t0)
+				finished = true
+			})
+		}()
+		<-done
+		if pv != nil {
+			panic(pv)
+		}
 	}()
 	return leaked
 }
